@@ -69,7 +69,7 @@ ASSUMPTIONS = [
     "pillars: isotropic materials; column heights L <= 4 (thorough 5) and M <= 3 materials (thorough 4) for the symbolic nearest_index proof (euclidean metric only for tables of at most 16 allowed columns), L <= 5 (thorough 6), M <= 4 for the allowed-column enumeration; every background index and both single_polymer_columns settings; axes 0,1,2; both distance metrics",
     "euclidean metric: sqrt is an uninterpreted strictly increasing function on non-negative reals",
 ]
-MIN_OBLIGATIONS = {"quick": 400, "thorough": 400}
+MIN_OBLIGATIONS = {"quick": 3000, "thorough": 3000}
 LEVEL_TEXT = "Deductive proof over all array shapes and binary values (median, padding) and over all real parameter values and allowed inverse permittivities (pillars) that the real functions equal their index-wise definitions; kernel sizes, pad widths/modes, column height, material count, axis and metric are finite classes enumerated as listed"
 LEVEL_NOTE = "column height / material count / kernel size / pad width bounded as listed in ASSUMPTIONS; a seeded real-JAX run of the same functions against numpy oracles is attached as bounded evidence for the shim semantics"
 BOUNDED_RULE = "real binary_median_filter / PillarDiscretization under real JAX on seeded random inputs against numpy oracles (supporting evidence for the shims; the property itself is proved symbolically)"
@@ -792,7 +792,7 @@ def tasks(tier, seed):
     mode_sets = list(itertools.product(("constant", "edge"), repeat=6))
     width_sets = [(1,), (10,), MIXED_W] + ([(2,), (3,), (20,), (0, 1, 2, 3, 4, 5)] if thorough else [])
     for wi, w in enumerate(width_sets):
-        for g, lst in _chunks(mode_sets, 8):
+        for g, lst in _chunks(mode_sets, 16):
             parts = [("modes=" + "".join(m[0] for m in ms) + ",widths=" + "-".join(map(str, w)) + ":", _padding_task(ms, w, sym_values=[0] * 6)) for ms in lst]
             out[f"padding/w{'-'.join(map(str, w))}/g{g}"] = STask(_grouped(parts))
     out["padding/defaults"] = STask(_grouped([("modes=e,widths=2,values=None:", _padding_task(("edge",), (2,), None)), ("modes=c,widths=3,values=(v,):", _padding_task(("constant",), (3,), [0]))]))
